@@ -9,10 +9,14 @@ SUB-REGION, in genomic order.  What crosses the boundaries between constructors:
 * since fix `reported_novel_chains`: the class-level set of (strand, intron chain) of the novel spliced models already
   reported on this chromosome (`drop_novel_chains_reported_elsewhere`, called by `process()` after `filter_transcripts`).
 
-`processRegion .keepReads` is `GraphBasedModelConstructor.process` of the current code (round `c04rep`: the local copy of a chain
-reported by an earlier constructor takes the id of the model reported first, so its reads stay listed and counted, and leaves the
-storage after `forward_counts`), `processRegion .dropOnly` the code of fix b2b4dd9 (the copy was deleted, its reads became `*`),
-`processRegion .none` the code before both (kept as `…Orig` / `…B2b4` for the witnesses).  The per-constructor steps are the existing models composed: `constructFL`,
+`processRegion .joinEarlier` is `GraphBasedModelConstructor.process` of the current code (round `c04rep2`: `reported_novel_chains` maps a
+chain to the MODEL reported first; a constructor deletes its local copy of a repeated chain, and a copy of every earlier model that
+overlaps the reads it processes joins the storage for the second `assign_reads_to_models` — so the reads are compared with the model that
+is in the output, whether or not they were enough to build the chain here — and leaves it after `forward_counts`),
+`processRegion .renameCopy` the code of fix 0c8e711 (the local copy took the first model's id: reads of a later sub-region that built NO
+copy stayed `*`, reads of a copy with another 3' end were counted for the first model), `processRegion .dropOnly` the code of fix b2b4dd9
+(the copy was deleted, its reads became `*`), `processRegion .none` the code before all three (kept for the witnesses).
+The per-constructor steps are the existing models composed: `constructFL`,
 `monoLoop`, `Store.preFilter`, `Store.assignReads`, `Store.filterTranscriptsG`.  Parameters (universally quantified in the
 theorems): everything the per-constructor models already take as parameters, the models `construct_assignment_based_isoforms`
 adds (`AOp`), and the gene ids `TranscriptToGeneJoiner` writes (`newGene`; the joiner only rewrites gene ids:
@@ -114,18 +118,67 @@ def Store.dropKeep (s : Store) (reported : ChainMap) : Option (Store × List TMo
   | some (s', kept) =>
     some ({ s' with models := kept.map (·.2) }, finalModels kept, mapUpdate reported (finalModels kept))
 
+/-! ### round `c04rep2`: the dict holds the MODEL reported first; earlier models join the second assignment -/
+
+/-- `GraphBasedModelConstructor.reported_novel_chains` of the current code: (strand, chain) -> the model reported first -/
+abbrev ModelMap := List (ChainKey × TModel)
+
+instance instDecidableEqModelMap : DecidableEq ModelMap := inferInstance
+
+/-- the view fix 0c8e711 had of the dict: (strand, chain) -> id of the model reported first -/
+def idMapOf (mm : ModelMap) : ChainMap := mm.map (fun p => (p.1, p.2.tid))
+
+def modelInsertNew (l : ModelMap) (p : ChainKey × TModel) : ModelMap := if amHas l p.1 then l else l ++ [p]
+
+def modelPairs (ms : List TModel) : ModelMap := (ms.filter isSplicedNovel).map (fun m => (chainKey m, m))
+
+/-- `reported_novel_chains.update(own_chains)`, `own_chains.setdefault(chain, model)` over the models that stay -/
+def mapUpdateM (reported : ModelMap) (ms : List TModel) : ModelMap :=
+  ((modelPairs ms).foldl modelInsertNew []).foldl (fun l p => amSet l p.1 p.2) reported
+
+/-- `model.get_start()` / `model.get_end()`; `none` = IndexError on an empty exon list -/
+def TModel.startPos (m : TModel) : Option Int := m.exons.head?.map (·.1)
+def TModel.endPos (m : TModel) : Option Int := m.exons.getLast?.map (·.2)
+
+/-- `[copy.copy(model) for model in reported_novel_chains.values()
+      if model.get_start() <= reads_end and reads_start <= model.get_end()]` -/
+def overlapping (span : Int × Int) : ModelMap → Option (List TModel)
+  | [] => some []
+  | (_, m) :: t =>
+    match m.startPos, m.endPos, overlapping span t with
+    | some a, some b, some r => some (if a ≤ span.2 ∧ span.1 ≤ b then m :: r else r)
+    | _, _, _ => none
+
+/-- `self.earlier_models`; `span` = (min start, max end) of the corrected exons of the constructor's reads, `none` = no read has
+    exons (the list stays empty) -/
+def earlierModels (reported : ModelMap) : Option (Int × Int) → Option (List TModel)
+  | none => some []
+  | some span => overlapping span reported
+
+/-- the current `drop_novel_chains_reported_elsewhere`: the storage the second `assign_reads_to_models` works on (the kept models
+    followed by the copies of the earlier models), the models that will be dumped, the new dict; `none` = the code raises.
+    The deletion loop is the loop of fix b2b4dd9 (`Store.dropReported`). -/
+def Store.dropJoin (s : Store) (reported : ModelMap) (span : Option (Int × Int)) : Option (Store × List TModel × ModelMap) :=
+  match s.dropReported (chainKeys (idMapOf reported)) with
+  | none => none
+  | some (s6, _) =>
+    match earlierModels reported span with
+    | none => none
+    | some em => some ({ s6 with models := s6.models ++ em }, s6.models, mapUpdateM reported s6.models)
+
 /-- which `process()` is modelled -/
 inductive Repair where
   | none        -- before fix b2b4dd9: every constructor reports its chains
   | dropOnly    -- fix b2b4dd9: a repeated chain is deleted, its reads are not kept
-  | keepReads   -- current code: the reads of a repeated chain stay under the id of the model reported first
+  | renameCopy  -- fix 0c8e711: the local copy of a repeated chain takes the id of the model reported first
+  | joinEarlier -- current code: local copies are deleted, the earlier models themselves join the second assignment
   deriving Repr, DecidableEq
 
 /-- what the constructors of one chromosome task share -/
 structure ChrState where
   detected : List String        -- GraphBasedModelConstructor.detected_known_isoforms
   idv : Nat                     -- transcript_id_distributor.value
-  reported : ChainMap           -- GraphBasedModelConstructor.reported_novel_chains
+  reported : ModelMap           -- GraphBasedModelConstructor.reported_novel_chains
   deriving Repr, DecidableEq
 
 /-- the state `construct_models_in_parallel` starts a chromosome with: both class-level containers cleared, a fresh distributor -/
@@ -168,23 +221,28 @@ structure RegionIn where
   ins1 : List AssignIn                              -- first assign_reads_to_models
   ins2 : List AssignIn                              -- second assign_reads_to_models
   newGene : TModel → String                         -- TranscriptToGeneJoiner.join_transcripts
+  span : Option (Int × Int) := none                 -- (min start, max end) of the corrected exons of the record's reads
 
 /-- the tail of `process()` after `filter_transcripts`: [the drop,] the second `assign_reads_to_models`, [`forward_counts` reads
     `transcript_read_ids` — what `dumpR2T` prints —, the local copies leave the storage,] the joiner -/
-def regionTail (v : Repair) (reported : ChainMap) (r : RegionIn) (s5 : Store) : Option (Store × ChainMap) :=
+def regionTail (v : Repair) (reported : ModelMap) (r : RegionIn) (s5 : Store) : Option (Store × ModelMap) :=
   let join (s7 : Store) (ms : List TModel) : Store := { s7 with models := ms.map (fun m => { m with gene := r.newGene m }) }
   match v with
   | .none =>
     let s7 := s5.assignReads r.ins2
     some (join s7 s7.models, reported)
   | .dropOnly =>
-    match s5.dropReported (chainKeys reported) with
+    match s5.dropReported (chainKeys (idMapOf reported)) with
     | none => none
     | some (s6, _) =>
       let s7 := s6.assignReads r.ins2
-      some (join s7 s7.models, mapUpdate reported s6.models)
-  | .keepReads =>
-    match s5.dropKeep reported with
+      some (join s7 s7.models, mapUpdateM reported s6.models)
+  | .renameCopy =>
+    match s5.dropKeep (idMapOf reported) with
+    | none => none
+    | some (s6, final, _) => some (join (s6.assignReads r.ins2) final, mapUpdateM reported final)
+  | .joinEarlier =>
+    match s5.dropJoin reported r.span with
     | none => none
     | some (s6, final, rep) => some (join (s6.assignReads r.ins2) final, rep)
 
@@ -224,7 +282,9 @@ def runChromosome (repaired : Repair) (next : Nat → Nat) :
     | some (cs', s) => runChromosome repaired next t cs' (acc ++ [s])
 
 /-- the current code -/
-def runChromosomeFixed := runChromosome .keepReads
+def runChromosomeFixed := runChromosome .joinEarlier
+/-- the code of fix 0c8e711 (kept for the witness: reads of a later sub-region that builds no copy are lost) -/
+def runChromosome0c8e := runChromosome .renameCopy
 /-- the code of fix b2b4dd9 (kept for the witness: the reads of a repeated chain are lost) -/
 def runChromosomeB2b4 := runChromosome .dropOnly
 /-- the code before both fixes (kept for the witness: duplicates) -/
